@@ -50,16 +50,17 @@ class P:
         # is registered again with another precedence / associativity, trees parsed under the new table are rendered
         # (all on one thread): every rendering must read back as its tree
         base = {n_: (p_, r_) for n_, p_, s_, r_ in infix}
-        for _ in range(60 if tier == "quick" else 3000):
+        for _ in range(150 if tier == "quick" else 5000):
             PT2 = dict(base)
             words = rng.sample(["hi", "lo", "zed"], rng.randint(1, 2))
             ops_ = []
             def tree(d):
                 if d <= 0 or rng.random() < 0.3: return ("ref", rng.choice(["a", "b", "c"]))
-                return ("bin", rng.choice(words * 3 + ["+", "*", "==", "&&"]), tree(d - 1), tree(d - 1))
+                return ("bin", rng.choice(words * 4 + ["+", "*", "==", "&&", "-", "/", "<<", "in", "||", "="]), tree(d - 1), tree(d - 1))
             for _phase in range(rng.choice([2, 3])):
                 for w in words:
-                    pr = rng.choice([21, 39, 41, 59, 61, 99, 109, 111, 119, 121, 199, 201])
+                    # next to the built-in levels, and ON them (a level then mixes both associativities)
+                    pr = rng.choice([21, 39, 41, 59, 61, 99, 109, 111, 119, 121, 199, 201, 20, 40, 60, 100, 110, 110, 120, 120, 200])
                     right = rng.random() < 0.4
                     PT2[w] = (pr, right)
                     ops_.append("REGI:%s:%x:0:%d:0" % (hx(w), pr, 1 if right else 0))
@@ -72,6 +73,18 @@ class P:
             deep += ["!" * k + "a", "- " * k + "a", "[" * k + "a" + "]" * k, "f(" * k + "a" + ")" * k, "{1:" * k + "a" + "}" * k,
                      "c ? b : " * k + "a", "b = " * k + "a", "[-" * (k // 2) + "a" + "]" * (k // 2), "1 + f(" * (k // 2) + "a" + ")" * (k // 2),
                      "a" + " ++" * k, "(" * 200 + "a" + " + 1)" * 200]
+        # accepted programs whose nesting sits at the limit because of parentheses the tree does not need, or of a long chain in
+        # front of a deeply nested operand: the rendering must not need more nesting than the source did (D23)
+        for k in (248, 250, 251, 252, 253, 254):
+            deep.append("a * (b = " + "[" * k + "1" + "]" * k + ") + d")
+            deep.append("(a + b) * " + "(" * (k - 3) + "c" + ")" * (k - 3))
+        for k, m in ((100, 200), (10, 240), (3, 250), (250, 3), (128, 126), (200, 54), (254, 1), (1, 253)):
+            deep.append("(" + "a + " * k + "a) + " + "[" * m + "1" + "]" * m)
+            deep.append("a + " * k + "[" * m + "1" + "]" * m)
+            deep.append("(" + "a + " * k + "a) ? " + "[" * m + "1" + "]" * m + " : " + "f(" * m + "1" + ")" * m)
+            deep.append("- " * (m // 2) + "(" + "a * " * k + "a)")
+        from .c01 import amplifier_families
+        deep += [s_ for _n, _k, s_ in amplifier_families()]
         cases += flow.mk_cases("deep", ["RT:" + hx(p_) for p_ in deep])
         n = 3000 if tier == "quick" else 300000
         rnd = []
